@@ -1,5 +1,6 @@
 import DawgieVerif.Model.Sexp
 import DawgieVerif.Model.Frame
+import DawgieVerif.Model.Handshake
 
 namespace DawgieVerif.Frame
 open DawgieVerif
@@ -31,3 +32,24 @@ def handle : List Sx → Sx
   | _ => Sx.err "frame-op"
 
 end DawgieVerif.Frame
+
+namespace DawgieVerif.Handshake
+open DawgieVerif DawgieVerif.Frame
+
+/-- the table-driven PGP fake of the harness: a packet verifies iff it starts with "OK";
+    decryption strips that marker -/
+def fakeEnv (challenge : Bytes) : Env :=
+  { verify := fun b => b.take 2 == [79, 75], decrypt := fun b => b.drop 2, challenge := challenge }
+
+/-- `(hs <challenge> <chunk> ...)` → `(closed restored sent (<delivered> ...))` -/
+def handle : List Sx → Sx
+  | Sx.atom "hs" :: ch :: chunks =>
+    match bytes? ch, chunks.mapM bytes? with
+    | some c, some cs =>
+      let s := feedAllT (fakeEnv c) init cs
+      Sx.list [Sx.ofBool s.closed, Sx.ofBool s.restored, Sx.ofNat s.sent,
+               Sx.list (s.delivered.map ofBytes), Sx.ofBool s.structErr]
+    | _, _ => Sx.err "bytes"
+  | _ => Sx.err "hs-op"
+
+end DawgieVerif.Handshake
